@@ -19,10 +19,13 @@ def compare(F, f0, an, scale, h=1e-4, floor_rel=1e-7, retry_h=None):
     the much smaller retry_h and only reported if it persists (a wrong gradient is wrong at every step size)."""
     status, info = _compare(F, f0, an, scale, h, floor_rel)
     if status == "bad" and retry_h is not None:
-        status2, info2 = _compare(F, f0, an, scale, retry_h, floor_rel)
-        if status2 != "bad":
-            info2["first_scale"] = info
-            return status2, info2
+        # retry_h may be a tuple of decreasing steps (MMD under an indefinite kernel: square-root branch points of the
+        # clipped pair distances can lie arbitrarily close to the point)
+        for rh in (retry_h if isinstance(retry_h, (tuple, list)) else (retry_h,)):
+            status2, info2 = _compare(F, f0, an, scale, rh, floor_rel)
+            if status2 != "bad":
+                info2["first_scale"] = info
+                return status2, info2
     return status, info
 
 
